@@ -17,7 +17,12 @@ def run(ctx):
     for i in range(chunks):
         args = ["-seed", int(ctx.seed) + 1000 * i, "-hist", 200, "-find", 10, "-commit", 400,
                 "-pure", 6000 if big else 4000, "-workers", 12, "-corpus", corpus]
-        r = vlib.run_pipeline(ctx, exe, args, mcheck)
+        try:
+            r = vlib.run_pipeline(ctx, exe, args, mcheck)
+        except vlib.CheckError:
+            # the in-memory Atomix cluster of the harness occasionally dies under heavy machine load: one retry
+            ctx.notes_retry = getattr(ctx, "notes_retry", 0) + 1
+            r = vlib.run_pipeline(ctx, exe, args, mcheck)
         if res is None:
             res = r
         else:
